@@ -9,4 +9,4 @@ trap 'rm -rf $d' EXIT
 rsync -a --exclude .git /repo/ $d/repo/
 if ! (cd $d/repo && patch -p1 -s < "$patch"); then echo "PATCH-FAILED $patch"; exit 3; fi
 ./bin/govc check --props "$props" --repo $d/repo --evidence $d/ev --replays $d/rp --known /verif/known_findings.json "$@" 2>&1 | sed -e "s#$d/##g"
-exit ${PIPESTATUS[0]}
+rc=${PIPESTATUS[0]}; [ "$rc" = 2 ] && echo "GOVC-ERROR (does the patched tree compile?)"; exit $rc
